@@ -129,6 +129,14 @@ func (e *c09Env) nat(id string) int {
 }
 
 func (e *c09Env) emit(op, res string) {
+	// every generated operation with a side condition in C09's theorems (OpOK') is first
+	// checked by the model to lie inside that proven domain
+	for _, pre := range []string{"create ", "wfull ", "winc ", "crashclose ", "reap "} {
+		if strings.HasPrefix(op, pre) {
+			e.ops = append(e.ops, "admissible "+op)
+			e.impl = append(e.impl, "yes")
+		}
+	}
 	e.ops = append(e.ops, op)
 	e.impl = append(e.impl, res)
 }
@@ -181,6 +189,11 @@ func (e *c09Env) observe() {
 	e.emit("list", "ok "+l)
 	dn, _ := e.str.DueNext()
 	e.emit("due", dn.String())
+	if fileExistsC09(e.str.fullNeededPath) {
+		e.emit("flag", "set")
+	} else {
+		e.emit("flag", "clear")
+	}
 	ents, _ := os.ReadDir(e.dir)
 	var ls []string
 	type nn struct {
@@ -408,6 +421,10 @@ func TestVerifC09(t *testing.T) {
 								sig += ":set-between-header-and-close"
 							}
 							rep.Fail(sig, fmt.Sprintf("history %v: Close installed an incremental snapshot while FULL_NEEDED was set; FULL_NEEDED afterwards: %v", e.hist, fileExistsC09(e.str.fullNeededPath)),
+								map[string]interface{}{"history": e.hist})
+						}
+						if walDir == "" && setBetween && fnBefore && !fileExistsC09(e.str.fullNeededPath) {
+							rep.Fail("requirement-raised-after-capture-cleared-by-full-close", fmt.Sprintf("history %v: SetDueNext(Full) was called after the sink of this full snapshot had been created, and its Close cleared FULL_NEEDED", e.hist),
 								map[string]interface{}{"history": e.hist})
 						}
 						if accepted {
